@@ -495,8 +495,110 @@ def s_cases(tier='quick'):
             yield ('-', inj, 'same', script, 'immediate')
 
 
+# ------------------------------------------------------------------ part T: the handshake never happens
+def run_t(prefix, inj, place):
+    """Virtual time, command timeout 11 s: the client sends STARTTLS (+ clear-text bytes, same or later segment), gets the
+    220 and never starts the handshake.  -> (reply lines after the 220 to STARTTLS, callbacks after it, time the handler ended)"""
+    import gevent
+    import slimta.edge.smtp as edge_smtp
+    from slimta.edge.smtp import SmtpEdge
+    from slimta.smtp.server import Server
+    from engine.core import Chooser
+    from engine.vloop import World
+    from fakes.vsock import Net, VContext
+    from worlds.edge_seq import FakePtrLookup
+    from slimta.edge.smtp import SmtpValidators
+    rec = {'replies': [], 'cbs': [], 'end': None, 'exc': None}
+
+    class V(SmtpValidators):
+        def handle_ehlo(self, reply, ehlo_as):
+            rec['cbs'].append(('EHLO', ehlo_as))
+
+        def handle_mail(self, reply, sender, params):
+            rec['cbs'].append(('MAIL', sender))
+
+        def handle_rcpt(self, reply, rcpt, params):
+            rec['cbs'].append(('RCPT', rcpt))
+
+        def handle_tls(self):
+            rec['cbs'].append(('TLS',))
+
+    class NullQueue(object):
+        def enqueue(self, envelope):
+            return [(envelope, 'id')]
+    with World(Chooser(), max_steps=5000) as w:
+        net = Net(w)
+        csock, ssock = net.pair()
+        saved = edge_smtp.PtrLookup
+        edge_smtp.PtrLookup = FakePtrLookup
+        try:
+            edge = SmtpEdge(None, NullQueue(), command_timeout=11.0, data_timeout=17.0, hostname='mx.test', context=VContext(),
+                            validator_class=V, auth=True)
+
+            def handler():
+                try:
+                    edge.handle(ssock, ('192.0.2.1', 4321))
+                except gevent.GreenletExit:
+                    raise
+                except BaseException as e:
+                    rec['exc'] = type(e).__name__
+                rec['end'] = w.now
+            gevent.spawn(handler)
+            ssock.on_send = lambda sock, tag, data: rec['replies'].extend(
+                (w.now, l.rstrip(b'\r')) for l in data.split(b'\n') if l.strip() and not data.startswith(b'\x16HELLO'))
+
+            def client():
+                for line in PREFIXES[prefix]:
+                    csock.sendall(line)
+                    for _ in range(20):
+                        gevent.sleep(0)
+                rec['mark'] = (len(rec['replies']), len(rec['cbs']))
+                if place == 'same':
+                    csock.sendall(b'STARTTLS\r\n' + INJECT[inj])
+                else:
+                    csock.sendall(b'STARTTLS\r\n')
+                    for _ in range(20):
+                        gevent.sleep(0)
+                    if INJECT[inj]:
+                        csock.sendall(INJECT[inj])
+                # ... and never says hello
+            gevent.spawn(client)
+            w.run_until_quiescent()
+        finally:
+            edge_smtp.PtrLookup = saved
+    nr, nc = rec.get('mark', (0, 0))
+    return [l for t, l in rec['replies'][nr:]], rec['cbs'][nc:], rec['end'], rec['exc']
+
+
+def check_t(case, res):
+    prefix, inj, place = case
+    replies, cbs, end, exc = run_t(prefix, inj, place)
+    res.evaluations += 1
+    res.outcome((tuple(l[:3] for l in replies), tuple(cbs), end is not None))
+    viol = []
+    rep = {'part': 'T', 'case': list(case)}
+    desc = 'prefix %s, STARTTLS + %r (%s segment), the client never starts the handshake, command timeout 11 s: replies after the STARTTLS line %r, callbacks %r, handler ended at %r (%s)' % (
+        prefix, INJECT[inj], place, replies, cbs, end, exc)
+    after = replies[1:] if replies and replies[0].startswith(b'220') else replies
+    if any(c[0] in ('EHLO', 'MAIL', 'RCPT') for c in cbs) or any(l[:1] in (b'2', b'3', b'5') for l in after):
+        viol.append(({'part': 'starttls-server', 'kind': 'clear-bytes-interpreted-without-handshake', 'placement': place}, desc, rep))
+    if any(c[0] == 'TLS' for c in cbs):
+        viol.append(({'part': 'starttls-server', 'kind': 'session-counted-as-encrypted-without-handshake', 'placement': place}, desc, rep))
+    if end is None:
+        viol.append(({'part': 'starttls-server', 'kind': 'session-never-ended'}, desc, rep))
+    return viol
+
+
+def t_cases(tier):
+    for prefix in PREFIXES:
+        for inj in ('none', 'mail', 'ehlo+mail', 'ehlo', 'noop', 'half'):
+            for place in ('same', 'later'):
+                yield (prefix, inj, place)
+
+
 def configs(tier, seed):
-    cfgs = [{'part': 'S', 'k': k, 'of': 8} for k in range(8)]
+    cfgs = [{'part': 'T'}]
+    cfgs += [{'part': 'S', 'k': k, 'of': 8} for k in range(8)]
     cfgs += [{'part': 'C'}]
     cfgs += [{'part': 'A', 'k': k, 'of': 23} for k in range(23)]
     return cfgs
@@ -515,6 +617,13 @@ def run_config(cfg, tier, seed):
             res.count('starttls_server_cases')
             if i % 50 == cfg['k']:
                 res.sample({'part': 'S', 'prefix': case[0], 'injected': b2s(INJECT[case[1]]), 'placement': case[2], 'tls_script': case[3], 'mode': case[4]})
+    elif cfg['part'] == 'T':
+        for case in t_cases(tier):
+            res.interesting(case)
+            for v in check_t(case, res):
+                res.violation(*v)
+            res.count('handshake_never_started_cases')
+        res.sample({'part': 'T', 'what': 'STARTTLS answered 220, clear-text bytes behind it, no handshake, command timeout'})
     elif cfg['part'] == 'C':
         for inj in C_INJECT:
             res.interesting(inj)
@@ -545,6 +654,11 @@ def vacuity(counters, tier):
 
 def replay(rep):
     res = Result()
+    if rep['part'] == 'T':
+        vs = check_t(tuple(rep['case']), res)
+        if vs:
+            return True, vs[0][1]
+        return False, 'nothing sent in clear was interpreted; the session ended'
     if rep['part'] == 'S':
         INJECT.update(INJECT_PAIRS)
         vs = check_s(tuple(rep['case']), res)
